@@ -27,6 +27,9 @@ type c05Case struct {
 	Path   int    `json:"path"`
 	MCQ    int    `json:"mcq,omitempty"`
 	ReadRp bool   `json:"read_repair,omitempty"`
+	// OwnerGone: the primary owner's own copy is missing (as after a failover: the new owner starts empty,
+	// the backup owners hold the entry); only the read quorum is examined then
+	OwnerGone bool `json:"owner_copy_missing,omitempty"`
 }
 
 // c05Matrix enumerates every (R, W, RQ, N, subset) combination.
@@ -39,6 +42,10 @@ func c05Matrix() []c05Case {
 					nb := r - 1
 					for mask := 0; mask < 1<<nb; mask++ {
 						out = append(out, c05Case{Kind: "rw", R: r, W: w, RQ: rq, N: n, Unr: mask})
+						if w == 1 {
+							// the read side again with the owner's own copy missing (W does not matter for it)
+							out = append(out, c05Case{Kind: "rw", R: r, W: w, RQ: rq, N: n, Unr: mask, OwnerGone: true})
+						}
 					}
 				}
 			}
@@ -101,6 +108,10 @@ func runC05RW(c *c05Case) (v *vcommon.Violation, nontrivial, inconclusive bool) 
 		return false
 	}
 	reachable := c.R - len(unreachable)
+	if c.OwnerGone {
+		owner.db.dmap.VerifDeleteLocal(name, key, partitions.PRIMARY)
+		reachable-- // the owner answers, but it has no copy to contribute
+	}
 	if reachable == c.W-1 || reachable == c.W || reachable == c.RQ-1 || reachable == c.RQ {
 		nontrivial = true
 	}
@@ -149,6 +160,26 @@ func runC05RW(c *c05Case) (v *vcommon.Violation, nontrivial, inconclusive bool) 
 			return vRes{Err: errClass(dm.Put(ctx, k, []byte("new")))}
 		}
 		return fromGetResponse(dm.Get(ctx, k))
+	}
+	if c.OwnerGone {
+		// read quorum only: the copies are what the failover left behind
+		desc := fmt.Sprintf("R=%d RQ=%d N=%d, the owner's own copy is missing, %d of %d backup owners unreachable (%d reachable copies), through %s", c.R, c.RQ, c.N, len(unreachable), len(backups), reachable, pathNames[c.Path])
+		gr := exec("get", key)
+		switch {
+		case reachable >= c.RQ && reachable > 0:
+			if gr.Err != "" || string(gr.Val) != "old" {
+				return bad("get-fails-although-quorum-met", "%s: Get returned %s although %d >= ReadQuorum copies are reachable", desc, gr.String(), reachable), nontrivial, false
+			}
+		case reachable == 0:
+			if gr.Err != "notfound" && gr.Err != "readquorum" {
+				return bad("get-without-copies", "%s: Get returned %s although no copy is reachable", desc, gr.String()), nontrivial, false
+			}
+		default:
+			if gr.Err != "readquorum" {
+				return bad("read-below-quorum", "%s: Get returned %s although only %d < ReadQuorum copies were obtained, want the read-quorum error", desc, gr.String(), reachable), nontrivial, false
+			}
+		}
+		return nil, nontrivial, false
 	}
 	// write quorum
 	pr := exec("put", key)
